@@ -5,13 +5,14 @@ mod refsem;
 mod vmrun;
 mod c01;
 mod c05;
+mod c06;
 mod c10;
 mod c11;
 
 use fw::*;
 
 fn defs() -> Vec<CheckDef> {
-    vec![c01::DEF, c05::DEF, c10::DEF, c11::DEF]
+    vec![c01::DEF, c05::DEF, c06::DEF, c10::DEF, c11::DEF]
 }
 
 fn arg_after(args: &[String], flag: &str) -> Option<String> {
@@ -51,6 +52,9 @@ fn main() {
             let path = args.get(2).expect("replay file");
             let raw = args.iter().any(|a| a == "--raw");
             std::process::exit(replay_main(&defs, path, raw));
+        }
+        Some("vmrun") => {
+            std::process::exit(c06::vmrun_main(args.get(2).expect("case file")));
         }
         Some("list") => {
             for d in &defs {
